@@ -10,8 +10,9 @@ from typing import Any, Dict, List, Optional
 
 VERIF = os.path.dirname(os.path.dirname(os.path.abspath(__file__)))
 REPO = os.environ.get("VERIF_REPO", "/repo")
-EVIDENCE = os.path.join(VERIF, "evidence")
-REPLAYS = os.path.join(VERIF, "replays")
+# evaluation of seeded changes redirects evidence / replays so that committed evidence only ever comes from /repo itself
+EVIDENCE = os.environ.get("VERIF_EVIDENCE_DIR", os.path.join(VERIF, "evidence"))
+REPLAYS = os.environ.get("VERIF_REPLAYS_DIR", os.path.join(VERIF, "replays"))
 KNOWN = os.path.join(VERIF, "known_findings.json")
 
 if REPO not in sys.path:
